@@ -351,7 +351,7 @@ def rr_rules(ctx, A):
                 cf = P.fns[cl[1]]
                 pred_ok = any(strip(x['expr'])[0] == 'field' and strip(x['expr'])[2] == 'is_base' for x in cf.exits())
             ok = not bad and pred_ok and any(strip(x)[0] == 'arg' for x in walk(src))
-        ctx.ob(['C06', 'C04'], 'R-EXPR', 'E6|first-base', ok, 'the base consulted for a vftable is the first pending region with is_base, found over the unadapted list: %s' % det, loc(vb[0]['span']))
+        ctx.ob(['C06', 'C04', 'C07'], 'R-EXPR', 'E6|first-base', ok, 'the base consulted for a vftable is the first pending region with is_base, found over the unadapted list: %s' % det, loc(vb[0]['span']))
     else:
         ctx.fail_closed(['C06'], 'R-EXPR', 'E6|first-base', 'no call to vftable::build in resolve_regions', where)
 
